@@ -309,18 +309,28 @@ def eval_nested(env, group):
                 os.mkdir(os.path.join(repo, '.hg'))
                 if rules[repo]:
                     open(os.path.join(repo, '.hgignore'), 'w').write('syntax: glob # the patterns below are globs\n' + '\n'.join(rules[repo]) + '\n')
+        W = None
+        if vcs == 'git':
+            # a linked work tree (git worktree add) inside the outer repository: its .git is a file; it is a repository of its own
+            W = os.path.join(A, 'W')
+            gcmd = ['git', '-C', A, '-c', 'user.name=x', '-c', 'user.email=x@example.org']
+            subprocess.run(gcmd + ['commit', '-q', '--allow-empty', '-m', 'c'], check=True, stdout=subprocess.DEVNULL, stderr=subprocess.DEVNULL, env=genv)
+            subprocess.run(gcmd + ['worktree', 'add', '-q', '--detach', W], check=True, stdout=subprocess.DEVNULL, stderr=subprocess.DEVNULL, env=genv)
+            core.materialise(W, {'w.log': F(1), 'w.c': F(1), 'deep': D({'x.log': F(1), 'y.o': F(1)})})
+            rules[W] = []
         ents = []
         for dp, dns, fns in os.walk(top):
+            fns[:] = [f_ for f_ in fns if f_ != '.git']
             dns[:] = [d for d in dns if d not in ('.git', '.hg')]
             for n in dns + fns:
                 ents.append(os.path.relpath(os.path.join(dp, n), top))
 
         def ignored(rel):
             full = os.path.join(top, rel)
-            repo = N if (full + '/').startswith(N + '/') else A if (full + '/').startswith(A + '/') else None
+            repo = N if (full + '/').startswith(N + '/') else W if W and (full + '/').startswith(W + '/') else A if (full + '/').startswith(A + '/') else None
             if repo is None or full == repo:
                 # the nested repository's own directory is an entry of the outer one
-                repo = A if full == N else None
+                repo = A if full in (N, W) else None
                 if repo is None:
                     return False
             import fnmatch
